@@ -1,2 +1,100 @@
--- line-protocol driver for C13 (stub; replaced when the property is built)
-def main : IO Unit := IO.println "stub"
+import Verif.Model.AcmeSans
+/-!
+  Line-protocol driver for C13 (ACME finalization: CSR names versus order identifiers).
+
+  One case per line, `key=value` fields separated by single spaces (unknown keys, e.g. `case=`, are ignored):
+    kind=fin ids=<id,…> fps=<str,…> cfp=<str|!> cn=<str> cnip=<bytes> dns=<str,…> ips=<bytes,…> em=<n> uri=<n>
+    kind=val ids=<id,…>
+  id = `<t>:<value>:<ParseIP(value) bytes>:<sanitize ok 0|1>` with t in d,i,p,u,w,o
+  (dns, ip, permanent-identifier, wireapp-user, wireapp-device, anything else);
+  a string / byte string is `x<hex>`, a list is joined by ',' and `-` when empty.
+  Output:
+    fin: `<class of F>:canon=<dns,…>;<ip,…> sans=<S> fin=<F>`
+         S = ok:<san,…> | badcsr | ise | unmodelled | crash      san = d~<str> | i~<16 bytes> | p~<str>
+         F = accept:<leaf|attested>:<cn>:<san,…> | badcsr | unauthorized | ise | unmodelled | crash
+    val: ok | malformed | unmodelled
+-/
+open Verif Verif.AcmeSans
+
+namespace C13
+
+def str? (t : String) : Option Str :=
+  if t.startsWith "x" then unhex (t.drop 1).toString else none
+
+def list? {α : Type} (f : String → Option α) (t : String) : Option (List α) :=
+  if t = "-" then some [] else (t.splitOn ",").mapM f
+
+def typ? : String → Option IdType
+  | "d" => some .dns | "i" => some .ip | "p" => some .pid
+  | "u" => some .wireUser | "w" => some .wireDevice | "o" => some .other
+  | _ => none
+
+def id? (t : String) : Option Identifier :=
+  match t.splitOn ":" with
+  | [a, b, c, d] => do
+    let ty ← typ? a
+    let v ← str? b
+    let ip ← str? c
+    let ok ← if d = "1" then some true else if d = "0" then some false else none
+    pure { typ := ty, value := v, ip := ip, sanitizeOk := ok }
+  | _ => none
+
+def lookup (kv : List (String × String)) (k : String) : Option String :=
+  (kv.find? (·.1 = k)).map (·.2)
+
+def xs (a : Str) : String := "x" ++ hex a
+
+def listS (l : List String) : String := if l.isEmpty then "-" else ",".intercalate l
+
+def sanS : San → String
+  | .dns v => "d~" ++ xs v
+  | .ip v => "i~" ++ xs v
+  | .pid v => "p~" ++ xs v
+
+def sansOutS : M SansOut → String
+  | .crash => "crash"
+  | .val (.ok l) => "ok:" ++ listS (l.map sanS)
+  | .val .badCSR => "badcsr"
+  | .val .ise => "ise"
+  | .val .unmodelled => "unmodelled"
+
+def finOutS : M FinOut → String
+  | .crash => "crash"
+  | .val (.accept a cn l) =>
+    "accept:" ++ (if a then "attested" else "leaf") ++ ":" ++ xs cn ++ ":" ++ listS (l.map sanS)
+  | .val .badCSR => "badcsr"
+  | .val .unauthorized => "unauthorized"
+  | .val .ise => "ise"
+  | .val .unmodelled => "unmodelled"
+
+def eval (line : String) : Option String := do
+  let kv := (fields line).filterMap fun f =>
+    match f.splitOn "=" with
+    | [k, v] => some (k, v)
+    | _ => none
+  let kind ← lookup kv "kind"
+  let ids ← list? id? (← lookup kv "ids")
+  match kind with
+  | "val" =>
+    pure (match validate ids with
+      | .ok => "ok" | .malformed => "malformed" | .unmodelled => "unmodelled")
+  | "fin" =>
+    let fps ← list? str? (← lookup kv "fps")
+    let cfpT ← lookup kv "cfp"
+    let cfp ← if cfpT = "!" then some none else (str? cfpT).map some
+    let cn ← str? (← lookup kv "cn")
+    let cnip ← str? (← lookup kv "cnip")
+    let dns ← list? str? (← lookup kv "dns")
+    let ips ← list? str? (← lookup kv "ips")
+    let em ← (← lookup kv "em").toNat?
+    let uri ← (← lookup kv "uri").toNat?
+    let c : Csr := { cn := cn, cnIp := cnip, dns := dns, ips := ips, emails := em, uris := uri }
+    let cc := canonicalize c
+    let f := finOutS (finalizeNames ids fps cfp c)
+    let cls := (f.splitOn ":").headD ""
+    pure s!"{cls}:canon={listS (cc.dns.map xs)};{listS (cc.ips.map xs)} sans={sansOutS (sans ids cc)} fin={f}"
+  | _ => none
+
+end C13
+
+def main : IO Unit := Verif.lineLoop fun l => (C13.eval l).getD "parse-error"
